@@ -339,7 +339,9 @@ class Run:
     # -- finish
     def finish(self, level="model_checking"):
         wall = time.time() - self.t0
-        os.makedirs(os.path.join(VERIF, "evidence"), exist_ok=True)
+        # X-ids are extension checks of behaviour outside the listed properties: same machinery, separate evidence
+        ev_dir = os.path.join(VERIF, "evidence_extra" if self.prop.startswith("X") else "evidence")
+        os.makedirs(ev_dir, exist_ok=True)
         distinct = len(self.nontrivial) + self.nontrivial_count
         cov = dict(
             states=self.states, transitions=self.transitions,
@@ -354,7 +356,7 @@ class Run:
         ev = dict(property_id=self.prop, tier=self.tier, seed=self.seed, level=level,
                   coverage=cov, assumptions=self.assumptions, wall_s=round(wall, 2),
                   violations=self.n_violations)
-        ev_path = os.path.join(VERIF, "evidence", self.prop + ".json")
+        ev_path = os.path.join(ev_dir, self.prop + ".json")
         if self.scratch_run:     # runs against a scratch copy (mutants, proposed fixes) never touch the evidence
             ev_path = os.path.join(self.work, self.prop + ".evidence.json")
         with open(ev_path, "w") as f:
